@@ -1,0 +1,40 @@
+//go:build verif
+
+package gov
+
+import (
+	"github.com/rigochain/rigo-go/ctrlers/gov/proposal"
+	ctrlertypes "github.com/rigochain/rigo-go/ctrlers/types"
+	"github.com/rigochain/rigo-go/ledger"
+	"github.com/rigochain/rigo-go/types/xerrors"
+)
+
+func (ctrler *GovCtrler) VerifReadProposalsAt(height int64, frozen bool, cb func(*proposal.GovProposal)) error {
+	src := ctrler.proposalLedger
+	if frozen {
+		src = ctrler.frozenLedger
+	}
+	if height <= 0 {
+		return src.IterateReadAllItems(func(p *proposal.GovProposal) xerrors.XError { cb(p); return nil })
+	}
+	l, xerr := src.ImmutableLedgerAt(height, 0)
+	if xerr != nil {
+		return xerr
+	}
+	return l.IterateReadAllItems(func(p *proposal.GovProposal) xerrors.XError { cb(p); return nil })
+}
+
+// VerifPendingParams returns the parameters staged by an applied proposal and not yet committed (nil if none).
+func (ctrler *GovCtrler) VerifPendingParams() *ctrlertypes.GovParams { return ctrler.newGovParams }
+
+func (ctrler *GovCtrler) VerifLedgers() (ledger.IFinalityLedger[*ctrlertypes.GovParams], ledger.IFinalityLedger[*proposal.GovProposal], ledger.IFinalityLedger[*proposal.GovProposal]) {
+	return ctrler.paramsLedger, ctrler.proposalLedger, ctrler.frozenLedger
+}
+
+// VerifCloseRest closes the store GovCtrler.Close() leaves open.
+func (ctrler *GovCtrler) VerifCloseRest() {
+	if ctrler.frozenLedger != nil {
+		_ = ctrler.frozenLedger.Close()
+		ctrler.frozenLedger = nil
+	}
+}
